@@ -218,6 +218,13 @@ def join_spaced(toks):
     return " ".join(toks)
 
 
+KEYWORDS = set("""abstract allocatable allocate assignment associate asynchronous bind block blockdata call case character class close codimension common complex concurrent contains contiguous continue critical data deallocate default dimension do double doubleprecision elemental else elseif elsewhere end entry enum enumerator equivalence err error exist extends external file final fmt forall format function generic go goto if implicit import impure in inquire integer intent interface intrinsic iostat is kind len logical module mold name namelist newunit none nopass null nullify only open opened operator optional out parameter pass pointer precision print private procedure program protected public pure read real recursive result return save select selectcase sequence source stat status stop submodule subroutine target then to type unit use value volatile where while write cycle exit rewind backspace endfile flush wait endif enddo endselect endwhere endforall endprogram endsubroutine endfunction endmodule endtype endinterface endassociate endblock endcritical endenum inout""".upper().split())
+
+
+def is_kw(tok):
+    return tok.upper() in KEYWORDS
+
+
 # ----------------------------------------------------------------------------------
 # name pools
 # ----------------------------------------------------------------------------------
